@@ -169,7 +169,7 @@ Section Straight.
             | Ok st =>
                 match invoke f (call_pos pc f c) c bd (a_cons st) with
                 | (Raise e, j) => (Raise e, j)
-                | (Ok v, j) => (ret_value check f c inst st v, j)
+                | (Ok v, j) => (match ret_value check f c inst st v with Ok v' => Ok (ret_seen pc consumes f v') | Raise e => Raise e end, j)
                 end
             end
         end
